@@ -38,18 +38,35 @@ pub fn is_ended_by<T: EbmlSpecification<T> + EbmlTag<T> + Clone>(current_id: u64
     )
 }
 
+///
+/// Returns how many of the innermost open masters are ended by the element `tag_id`.
+///
+/// Only the run of "Unknown" sized masters at the top of `open_masters` (outermost first) can be ended by an element - a "Known" sized master ends when its data is exhausted.  Every master from the outermost one that is directly ended by `tag_id` (see [`is_ended_by`]) up to the innermost one ends, because ending an unknown sized master also ends any unknown sized master inside of it.
+///
+pub fn ended_master_count<T: EbmlSpecification<T> + EbmlTag<T> + Clone>(tag_id: u64, open_masters: &[(u64, EBMLSize)]) -> usize {
+    let run_start = open_masters.iter().rposition(|m| m.1.is_known()).map_or(0, |i| i + 1);
+    match (run_start..open_masters.len()).find(|&i| is_ended_by::<T>(open_masters[i].0, tag_id)) {
+        Some(i) => open_masters.len() - i,
+        None => 0,
+    }
+}
+
+///
+/// Returns whether `tag_id` is allowed as the next element given the currently open masters (`doc_path`, outermost first).
+///
+/// Any unknown sized masters that are ended by `tag_id` (see [`ended_master_count`]) are not part of the chain the tag's path is compared against.
+///
 #[inline(always)]
 pub fn validate_tag_path<T: EbmlSpecification<T> + EbmlTag<T> + Clone>(tag_id: u64, doc_path: impl Iterator<Item = (u64, EBMLSize, usize)>) -> bool {
-    let path = <T>::get_path_by_id(tag_id);
+    let open_masters: Vec<(u64, EBMLSize)> = doc_path.map(|m| (m.0, m.1)).collect();
+    let remaining = open_masters.len() - ended_master_count::<T>(tag_id, &open_masters);
+    path_matches(<T>::get_path_by_id(tag_id), open_masters[..remaining].iter().map(|m| m.0))
+}
+
+fn path_matches(path: &[PathPart], doc_path: impl Iterator<Item = u64>) -> bool {
     let mut path_marker = 0;
     let mut global_counter = 0;
-    for item in doc_path {
-        let current_node_id = item.0;
-
-        if !item.1.is_known() && is_ended_by::<T>(current_node_id, tag_id) {
-            return true;
-        }
-
+    for current_node_id in doc_path {
         if path_marker >= path.len() {
             return false;
         }
